@@ -56,12 +56,15 @@ def run(prop, tier, seed):
         st["time_unit"] = sh.tunit
         # population: causal pairs with admissible aspect; stratify by class
         by = {}
-        dropped = 0
+        dropped = outside = 0
         for te, tr in pairs:
             if te[1] <= tr[0]:
                 continue
             if sh.aspect(te) > 32 or sh.aspect(tr) > 32:
                 dropped += 1
+                continue
+            if not sh.admissible(te, tr):
+                outside += 1     # not two leaves (or a leaf and a child / quarter) of one 1-irregular mesh: outside the quantifier
                 continue
             by.setdefault((sh.space_rel(te, tr), sh.allen(te, tr)), []).append((te, tr))
         sel = []
@@ -69,7 +72,7 @@ def run(prop, tier, seed):
             lst = by[cls]
             rng.shuffle(lst)
             sel += [(cls, te, tr) for te, tr in lst[:per_class]]
-        st.update({"classes": len(by), "selected": len(sel), "dropped_aspect": dropped})
+        st.update({"classes": len(by), "selected": len(sel), "dropped_aspect": dropped, "pairs_outside_quantifier": outside})
         fac = pl.Factory(sh, th)
         recs = []
         jobs = []
